@@ -255,6 +255,10 @@ ROUNDTRIP_FRAGMENTS = [
     {"psi_core": None}, {"poloidal_spacing_delta_psi": 0.01}, {"leg_trace_atol": 1e-9},
     {"N_norm_prefactor": 2.0}, {"target_all_poloidal_spacing_length": 1},
     {"shiftedmetric": True}, {"refine_timeout": 20.0}, {"sfunc_checktol": 1e-12},
+    # explicitly None where the default is a number ("switch this off")
+    {"target_outer_lower_poloidal_spacing_length": None},
+    {"target_inner_lower_poloidal_spacing_length": None},
+    {"refine_timeout": None},
 ]
 
 
@@ -288,13 +292,31 @@ def roundtrip_case(rng, key):
     explicit = []
     if rng.random() < 0.4:
         explicit = rng.sample(["psi_core", "psi_sol", "psi_pf_lower"], rng.choice((1, 2)))
-    return {"geometry": geom, "options": o, "np": np_, "explicit_psi": explicit,
+    # the first grid comes either from the command line or - as in the GUI and in
+    # scripts such as tokamak_example.py - from the Python API reading the same g-file
+    first = rng.choice(("cli", "cli", "api"))
+    return {"geometry": geom, "options": o, "np": np_ if first == "cli" else 1,
+            "explicit_psi": explicit, "first": first,
             "wall": rng.choice(("rect", "slanted")), "sched_seed": rng.randrange(10**6),
             "gfile_name": rng.choice(("in.geqdsk", "g012345.00100", "shot 7.eqdsk")),
             # real g-files often start with blanks and end with blank lines or a trailer;
             # "byte-exact" must hold for those too
             "decorate": rng.choice(("none", "leading_spaces", "trailing_blank_lines",
                                     "both", "trailing_comment"))}
+
+
+def _api_generate(gfile, options, out):
+    """What the GUI does: read_geqdsk with the options, BoutMesh, geometry, write."""
+    from hypnotoad.cases import tokamak
+    from hypnotoad.core.mesh import BoutMesh
+
+    with open(gfile, "rt") as fh:
+        eq = tokamak.read_geqdsk(fh, settings=dict(options),
+                                 nonorthogonal_settings=dict(options))
+    mesh = BoutMesh(eq, dict(options))
+    mesh.calculateRZ()
+    mesh.geometry()
+    mesh.writeGridfile(out)
 
 
 def run_roundtrip(case):
@@ -349,8 +371,13 @@ def run_roundtrip(case):
         def ch(k):
             return core.Choices(rng=random.Random(core.h64(f"rt/{case['sched_seed']}/{k}")))
 
-        r1 = cli.run_entry(cli.geqdsk_main(), ["hypnotoad-geqdsk", gname, "in.yaml"], a,
-                           np_=np_, choices=ch(1))
+        if case.get("first") == "api":
+            r1 = cli.run_entry(lambda: _api_generate(os.path.join(a, gname), options,
+                                                     os.path.join(a, "bout.grd.nc")),
+                               ["python"], a)
+        else:
+            r1 = cli.run_entry(cli.geqdsk_main(), ["hypnotoad-geqdsk", gname, "in.yaml"],
+                               a, np_=np_, choices=ch(1))
         out = {"gen1": [r1["outcome"], r1["exc"], r1.get("msg")]}
         if r1["outcome"] != "returned":
             out["status"] = "refused" if r1["outcome"] == "raised" else "hung"
